@@ -13,7 +13,9 @@ THEOREMS = ["C12_default_roundtrip_partial", "C12_description_roundtrip_partial"
             "C12_text_roundtrip_partial", "C12_fixpoint_partial", "C12_fixpoint_declares_again",
             "C12_document_rules_ok", "C12_members_roundtrip_guarded", "C12_default_literal_plain",
             "C12_no_defaults_guard", "C12_text_schema_is_desc_schema", "C12_description_lexes",
-            "C12_description_class_single_line", "C12_description_class_block", "C12_desc_schema_is_full_schema"]
+            "C12_description_class_single_line", "C12_description_class_block", "C12_desc_schema_is_full_schema",
+            "C12_description_lexes_escaped", "C12_description_escaped_scan", "C12_description_class_single_line_quotes",
+            "C12_description_class_block_quotes"]
 AXIOMS_OK = []
 RUN_MODULE = "Run.C12run Schema.SdlPrint Spec.SdlRoundtripSpec"
 AGREE = "agree_C12"
